@@ -531,6 +531,17 @@ impl<T: Send> MpmcShared<T> {
     }
   }
 
+  /// Removes the queued async-receiver waiter that points at `state_ptr`, if any.
+  /// A receive future that was still queued when a later poll completed it (it took
+  /// an item, or saw the disconnect, without having been notified) must call this
+  /// before its `state` is freed.
+  pub(crate) fn unlink_async_receiver(&self, state_ptr: *const AtomicU8) {
+    let mut guard = self.internal.lock();
+    guard
+      .waiting_async_receivers
+      .retain(|w| w.state != state_ptr);
+  }
+
   /// Inner polling logic used by both `RecvFuture` and `Stream for AsyncReceiver`.
   pub(crate) fn poll_recv_internal(
     &self,
